@@ -366,6 +366,34 @@ def run(ck, F):
             raise AnalysisBroken(f'{f["id"]}: outside the evaluator language: {e}')
         why = []
         vis_cls = None
+        # a shortcut taken before the dispatch -- `not of T's category: null` -- answers what the dispatch would have answered: every
+        # T node carries T's own code (rules 1d / 2); such outcomes are judged here and set aside
+        from facts import category_of as _category_of
+        code = _category_of(F, T)
+
+        def early_null(o):
+            st_, k_, v_ = o
+            if k_ != 'return' or v_ != NULL or not st_.conds or code is None or st_.effects:
+                return False
+            for c, b in st_.conds:
+                if not (isinstance(c, tuple) and c[:1] == ('op',) and len(c) == 4 and c[1] in ('!=', '==')):
+                    return False
+                differs = (c[1] == '!=') == bool(b)
+                sides = [c[2], c[3]]
+                cat = [x for x in sides if isinstance(x, tuple) and x[:1] == ('fld',) and x[2] == 'category' and strip_deref(x[1]) == ('param', 0)]
+                kk = [x for x in sides if isinstance(x, tuple) and x[:1] == ('k',) and x[1] == code[1]]
+                if not (differs and len(cat) == 1 and len(kk) == 1):
+                    return False
+            return True
+
+        def strip_deref(t):
+            while isinstance(t, tuple) and t and t[0] in ('deref', 'addr', 'castto'):
+                t = t[2] if t[0] == 'castto' else t[1]
+            return t
+        shortcuts = [o for o in outs5 if early_null(o)]
+        if shortcuts:
+            outs5 = [o for o in outs5 if not early_null(o)]
+            ck.note(f'view<{contracts.short(T)}>: {len(shortcuts)} early outcome(s) `category differs from {code[0]}: null`, the same answer the dispatch gives')
         if len(outs5) != 1 or outs5[0][1] != 'return':
             why.append('more than one outcome')
         else:
